@@ -61,10 +61,9 @@ def _msgs(err):
 
 
 def _parse(text):
-    from fcp.parser import get_fcp_from_string
-    from fcp.error import Logger
+    from .impl import parse
 
-    r = get_fcp_from_string(text, Logger({}))
+    r = parse(text)  # a text, or a schema spread over module files (impl.files_text)
     if r.is_err():
         raise RuntimeError("schema rejected by the parser: " + repr(r.err()))
     return r.unwrap()
